@@ -756,731 +756,793 @@ Section Model.
     | None => emit_bad BadState o m
     end.
 
+  (** One activation of the crate's (or the test program's) code, with the recursive calls
+      abstracted as [rec] (open recursion): [run (S n) = step (run n)]. Every activation kind is a
+      separate definition so that proofs can be stated and checked per case. *)
+  Section Step.
+  Context (rec : call -> machine -> machine * outcome).
+
+  Definition step_script (self : option id) (cs : list cmd) (m : machine) : machine * outcome :=
+    match cs with
+    | [] => (m, ONormal)
+    | c :: cs' =>
+      let '(m, r) := rec (KCmd self c) m in
+      match r with ONormal => rec (KScript self cs') m | _ => (m, r) end
+    end.
+
+  Definition step_store (r : rloc) (v : id) (m : machine) : machine * outcome :=
+    let old := read_loc r m in
+    let m := write_loc r (Some v) m in
+    match old with
+    | Some t => rec (KDropCc t) m
+    | None => (m, ONormal)
+    end.
+
+  Definition step_drop_cc (o : id) (m : machine) : machine * outcome :=
+    match get m o with
+    | None => (emit_bad BadState o m, ONormal)
+    | Some x =>
+      let m := match o_box x with BAlloc => m | _ => emit_bad UseAfterFree o m end in
+      let h := o_hdr x in
+      if is_in_list_or_queue h then (dec_rc_m o m, ONormal)
+      else if h_rc h =? 1 then
+        let fin_step (m : machine) : machine * outcome * bool (* continue to the drop? *) :=
+          if k_fin K && needs_fin h then
+            let old_f := st_finalizing m in
+            let m := m <| st_finalizing := true |> in
+            let m := uhdr o (set_fin true) m in
+            let '(m, r) :=
+              if o_ismap x then (m, ONormal)    (* Finalize for CleanerMap is empty *)
+              else
+                let m := emit (ECb KFin o (cur_flags m)) m in
+                let '(m, boom) := tick KFin m in
+                if boom then (m, raise m)
+                else rec (KScript (Some o) (oscript (c_fin (class_of (o_cls x))))) m in
+            match r with
+            | ONormal =>
+              if h_rc (hdr_of m o) =? 1 then (m <| st_finalizing := old_f |>, ONormal, true)
+              else (* resurrected: handle_possible_cycle, then the guard *)
+                (add_to_list o (dec_rc_m o m) <| st_finalizing := old_f |>, ONormal, false)
+            | _ => (m <| st_finalizing := old_f |>, r, false)
+            end
+          else (m, ONormal, true) in
+        let '(m, r, go) := fin_step m in
+        if negb go then (m, r)
+        else
+          let m := dec_rc_m o m in
+          let m := remove_from_list o m in
+          let old_d := st_dropping m in
+          let m := m <| st_dropping := true |> in
+          let m := if k_weak K then uhdr o set_dropped m else m in
+          let '(m, r) := rec (KDropValue o) m in
+          match r with
+          | ONormal =>
+            let m := drop_metadata o m in
+            let m := dealloc o m in
+            (m <| st_dropping := old_d |>, ONormal)
+          | _ => (m <| st_dropping := old_d |>, r)
+          end
+      else (add_to_list o (dec_rc_m o m), ONormal)
+    end.
+
+  Definition step_drop_value (o : id) (m : machine) : machine * outcome :=
+    match get m o with
+    | None => (emit_bad BadState o m, ONormal)
+    | Some x =>
+      match o_vst x with
+      | VUninit => (emit_bad UninitDrop o m, ONormal)
+      | VLive | VMoved =>
+        let m := upd o (fun x => x <| o_vst := VDropping |>) m in
+        if o_ismap x then
+          (* CleanerMap has no Drop impl; its SlotMap drops the occupied slots in order *)
+          let '(m, r) := rec (KDropMapSlots o 0) m in
+          (upd o (fun x => x <| o_vst := VDropped |>) m, r)
+        else
+          let m := emit (ECb KDrop o (cur_flags m)) m in
+          let '(m, boom) := tick KDrop m in
+          let '(m, r) := if boom then (m, raise m)
+                         else rec (KScript (Some o) (oscript (c_drop (class_of (o_cls x))))) m in
+          let '(m, r) :=
+            match r with
+            | ONormal => rec (KDropFields o 0) m
+            | OPanic => unwinding (rec (KDropFields o 0)) m
+            | _ => (m, r)
+            end in
+          (upd o (fun x => x <| o_vst := VDropped |>) m, r)
+      | _ => (emit_bad DoubleDrop o m, ONormal)
+      end
+    end.
+
+  Definition step_drop_fields (o : id) (j : nat) (m : machine) : machine * outcome :=
+    match get m o with
+    | None => (emit_bad BadState o m, ONormal)
+    | Some x =>
+      if decide (j < length (o_fields x))%nat then
+        let f := mjoin (o_fields x !! j) in
+        let m := upd o (fun x => x <| o_fields ::= <[j := None]> |>) m in
+        let '(m, r) := match f with Some t => rec (KDropCc t) m | None => (m, ONormal) end in
+        match r with
+        | ONormal => rec (KDropFields o (S j)) m
+        | OPanic => unwinding (rec (KDropFields o (S j))) m
+        | _ => (m, r)
+        end
+      else
+        let m := fold_left (fun m w => weak_drop_opt w m) (o_wfields x) m in
+        let m := upd o (fun x => x <| o_wfields ::= fmap (fun _ => None) |>) m in
+        match o_cleaner x with
+        | Some t => rec (KDropCc t) (upd o (fun x => x <| o_cleaner := None |>) m)
+        | None => (m, ONormal)
+        end
+    end.
+
+  Definition step_drop_map_slots (o : id) (j : nat) (m : machine) : machine * outcome :=
+    match get m o with
+    | None => (emit_bad BadState o m, ONormal)
+    | Some x =>
+      match o_mslots x !! j with
+      | None => (m, ONormal)
+      | Some sl =>
+        let m := upd o (fun x => x <| o_mslots ::= <[j := MVacant]> |>) m in
+        let '(m, r) :=
+          match sl with
+          | MAction aid script => rec (KCleanRun o aid script) m
+          | MVacant => (m, ONormal)
+          end in
+        match r with
+        | ONormal => rec (KDropMapSlots o (S j)) m
+        | OPanic => unwinding (rec (KDropMapSlots o (S j))) m
+        | _ => (m, r)
+        end
+      end
+    end.
+
+  Definition step_clean_run (mo : id) (aid script : nat) (m : machine) : machine * outcome :=
+    let m := emit (ECb KAction aid (cur_flags m)) m in
+    let '(m, boom) := tick KAction m in
+    if boom then (m, raise m) else rec (KScript None (script_of script)) m.
+
+  Definition step_trigger  (m : machine) : machine * outcome :=
+    if st_collecting m then (m, ONormal)
+    else if negb (pc_alive m) then (m, ONormal)
+    else if should_collect m then
+      let '(m, r) := rec KCollect m in
+      match r with ONormal => (adjust_trigger_point m, ONormal) | _ => (m, r) end
+    else (m, ONormal).
+
+  Definition step_collect_cycles  (m : machine) : machine * outcome :=
+    if st_collecting m then (m, ONormal)
+    else
+      let '(m, r) := if pc_alive m then rec KCollect m else (m, ONormal) in
+      match r with ONormal => (adjust_trigger_point m, ONormal) | _ => (m, r) end.
+
+  Definition step_collect  (m : machine) : machine * outcome :=
+    let m := m <| st_collecting := true |> <| st_exec ::= N.succ |> in
+    let '(m, r) := rec (KCollectLoop (if k_fin K then 10 else 1)%nat) m in
+    (m <| st_collecting := false |>, r).
+
+  Definition step_collect_loop (k : nat) (m : machine) : machine * outcome :=
+    match k with
+    | O => (m, ONormal)
+    | S k' =>
+      match pc m with
+      | [] => (m, ONormal)
+      | _ =>
+        let '(m, r) := rec KCollectOnce m in
+        match r with ONormal => rec (KCollectLoop k') m | _ => (m, r) end
+      end
+    end.
+
+  Definition step_collect_once  (m : machine) : machine * outcome :=
+    (* the tracing phases run with finalizing/dropping cleared; the two guards restore the
+       caller's values afterwards, also when tracing unwinds (lib.rs, __collect) *)
+    let old_f := st_finalizing m in
+    let old_d := st_dropping m in
+    let '(m, pr) := trace_pass (m <| st_finalizing := false |> <| st_dropping := false |>) in
+    let m := m <| st_finalizing := old_f |> <| st_dropping := old_d |> in
+    match pr with
+    | PFuel => (emit_bad Fuel 0 m, OFuel)
+    | PPanicked => (m, raise m)
+    | PDone L =>
+      match L with
+      | [] => (m, ONormal)
+      | _ =>
+        if k_fin K then
+          let old_f := st_finalizing m in
+          rec (KFinalizeList L L false old_f) (m <| st_finalizing := true |>)
+        else
+          let old_d := st_dropping m in
+          rec (KDropList L L old_d) (m <| st_dropping := true |>)
+      end
+    end.
+
+  Definition step_finalize_list (L rest : list id) (any old_f : bool) (m : machine) : machine * outcome :=
+    match rest with
+    | g :: rest' =>
+      let h := hdr_of m g in
+      if needs_fin h then
+        (* CcBox::finalize_inner, cc.rs:566 *)
+        let m := uhdr g (set_fin true) m in
+        let '(m, r) :=
+          if is_map m g then (m, ONormal)
+          else
+            let m := emit (ECb KFin g (cur_flags m)) m in
+            let '(m, boom) := tick KFin m in
+            if boom then (m, raise m)
+            else match get m g with
+                 | Some x => rec (KScript (Some g) (oscript (c_fin (class_of (o_cls x))))) m
+                 | None => (m, ONormal)
+                 end in
+        match r with
+        | ONormal => rec (KFinalizeList L rest' true old_f) m
+        | _ =>
+          (* unwinding: the guard, then non_root_list's Drop *)
+          (unmark_all L (m <| st_finalizing := old_f |>), r)
+        end
+      else rec (KFinalizeList L rest' any old_f) m
+    | [] =>
+      let m := m <| st_finalizing := old_f |> in
+      if negb any then
+        let old_d := st_dropping m in
+        rec (KDropList L L old_d) (m <| st_dropping := true |>)
+      else
+        (* swap_list + mark_self_and_append (lists.rs:306-336) *)
+        let m := fold_left (fun m g => uhdr g (fun h => set_mark PC (reset_tc h)) m) L m in
+        (m <| pc ::= fun old => L ++ old |> <| pc_size ::= fun s => N.of_nat (length L) + s |>, ONormal)
+    end.
+
+  Definition step_drop_list (L rest : list id) (old_d : bool) (m : machine) : machine * outcome :=
+    match rest with
+    | g :: rest' =>
+      (* CcBox::drop_inner, cc.rs:584 *)
+      let m := if is_in_list (hdr_of m g) then m else emit_bad AssertFail g m in
+      let m := if k_weak K then uhdr g set_dropped m else m in
+      let '(m, r) := rec (KDropValue g) m in
+      match r with
+      | ONormal => rec (KDropList L rest' old_d) m
+      | _ =>
+        (* ToDropList::drop: unlink + un-mark (+ set dropped with weak-ptrs) every member *)
+        let m := fold_left (fun m g => uhdr g (fun h => let h := set_mark NM h in
+                                                      if k_weak K then set_dropped h else h) m) L m in
+        (m <| st_dropping := old_d |>, r)
+      end
+    | [] =>
+      let m := fold_left (fun m g => dealloc g (drop_metadata g m)) L m in
+      (m <| st_dropping := old_d |>, ONormal)
+    end.
+
+  Definition step_unbag (k : nat) (m : machine) : machine * outcome :=
+    match k with
+    | O => (m, ONormal)
+    | S k' =>
+      match bag m with
+      | [] => (m, ONormal)
+      | o :: b =>
+        let '(m, r) := rec (KDropCc o) (m <| bag := b |>) in
+        match r with ONormal => rec (KUnbag k') m | _ => (m, r) end
+      end
+    end.
+
+  Definition cmd_new (self : option id) (dst : loc) (cls : nat) (m : machine) : machine * outcome :=
+    let '(m, r) := resolve self dst m in
+    match r with
+    | None => ok m RSkip
+    | Some r =>
+      let '(m, o) := new_node cls m in
+      let '(m, t) := if k_auto K then rec KTrigger m else (m, ONormal) in
+      match t with
+      | ONormal =>
+        let m := box_alloc o m in
+        let '(m, r') := rec (KStore r o) m in
+        match r' with ONormal => ok m ROk | _ => (m, r') end
+      | OPanic => unwinding (rec (KDropValue o)) m    (* the by-value argument *)
+      | _ => (m, t)
+      end
+    end
+  
+  (* Clone for Cc (cc.rs:199) *).
+
+  Definition cmd_clone (self : option id) (src dst : loc) (m : machine) : machine * outcome :=
+    let '(m, rs) := resolve self src m in
+    let '(m, rd) := resolve self dst m in
+    match rs, rd with
+    | Some rs, Some rd =>
+      match read_loc rs m with
+      | None => ok m RSkip
+      | Some o =>
+        match inc_rc (hdr_of m o) with
+        | None => (m, raise m)
+        | Some h =>
+          let m := remove_from_list o (uhdr o (fun _ => h) m) in
+          let '(m, r') := rec (KStore rd o) m in
+          match r' with ONormal => ok m ROk | _ => (m, r') end
+        end
+      end
+    | _, _ => ok m RSkip
+    end.
+
+  Definition cmd_drop (self : option id) (l : loc) (m : machine) : machine * outcome :=
+    let '(m, r) := resolve self l m in
+    match r with
+    | None => ok m RSkip
+    | Some r =>
+      match read_loc r m with
+      | None => ok m RSkip
+      | Some o =>
+        let '(m, r') := rec (KDropCc o) (write_loc r None m) in
+        match r' with ONormal => ok m ROk | _ => (m, r') end
+      end
+    end.
+
+  Definition cmd_move (self : option id) (src dst : loc) (m : machine) : machine * outcome :=
+    let '(m, rs) := resolve self src m in
+    let '(m, rd) := resolve self dst m in
+    match rs, rd with
+    | Some rs, Some rd =>
+      match read_loc rs m with
+      | None => ok m RSkip
+      | Some o =>
+        let '(m, r') := rec (KStore rd o) (write_loc rs None m) in
+        match r' with ONormal => ok m ROk | _ => (m, r') end
+      end
+    | _, _ => ok m RSkip
+    end
+  
+  (* Cc::mark_alive (cc.rs:168) *).
+
+  Definition cmd_mark_alive (self : option id) (l : loc) (m : machine) : machine * outcome :=
+    let '(m, r) := resolve self l m in
+    match (r ≫= (fun r => read_loc r m)) with
+    | None => ok m RSkip
+    | Some o => ok (remove_from_list o m) ROk
+    end.
+
+  Definition cmd_collect (self : option id)  (m : machine) : machine * outcome :=
+    let '(m, r) := rec KCollectCycles m in
+    match r with ONormal => ok m ROk | _ => (m, r) end
+  
+  (* Cc::downgrade (weak/mod.rs:346) *).
+
+  Definition cmd_downgrade (self : option id) (l : loc) (w : wloc) (m : machine) : machine * outcome :=
+    if negb (k_weak K) then ok m RSkip else
+    let '(m, r) := resolve self l m in
+    let '(m, rw) := wresolve self w m in
+    match (r ≫= (fun r => read_loc r m)), rw with
+    | Some o, Some rw =>
+      if negb (wloc_writable rw) then ok m RSkip else
+      let m := init_side o m in
+      match (side_wk m o ≫= inc_wk) with
+      | None => (m, raise m)
+      | Some k =>
+        let m := remove_from_list o (uside o (fun _ => k) m) in
+        let old := read_wloc rw m in
+        let m := write_wloc rw (Some (WTo o)) m in
+        ok (weak_drop_opt old m) ROk
+      end
+    | _, _ => ok m RSkip
+    end
+  
+  (* Weak::upgrade (weak/mod.rs:66) *).
+
+  Definition cmd_upgrade (self : option id) (w : wloc) (dst : loc) (m : machine) : machine * outcome :=
+    if negb (k_weak K) then ok m RSkip else
+    let '(m, rw) := wresolve self w m in
+    let '(m, rd) := resolve self dst m in
+    match (rw ≫= (fun rw => read_wloc rw m)), rd with
+    | Some wr, Some rd =>
+      let '(m, sc) := weak_strong_count wr m in
+      if sc =? 0 then ok m RNone
+      else match wr with
+           | WNull => ok m RNone
+           | WTo o =>
+             match inc_rc (hdr_of m o) with
+             | None => (m, raise m)
+             | Some h =>
+               let m := remove_from_list o (uhdr o (fun _ => h) m) in
+               let '(m, r') := rec (KStore rd o) m in
+               match r' with ONormal => ok m (RSome o) | _ => (m, r') end
+             end
+           end
+    | _, _ => ok m RSkip
+    end.
+
+  Definition cmd_w_new (self : option id) (w : wloc) (m : machine) : machine * outcome :=
+    if negb (k_weak K) then ok m RSkip else
+    let '(m, rw) := wresolve self w m in
+    match rw with
+    | Some rw =>
+      if negb (wloc_writable rw) then ok m RSkip else
+      let old := read_wloc rw m in
+      ok (weak_drop_opt old (write_wloc rw (Some WNull) m)) ROk
+    | None => ok m RSkip
+    end.
+
+  Definition cmd_w_clone (self : option id) (src dst : wloc) (m : machine) : machine * outcome :=
+    if negb (k_weak K) then ok m RSkip else
+    let '(m, rs) := wresolve self src m in
+    let '(m, rd) := wresolve self dst m in
+    match (rs ≫= (fun rs => read_wloc rs m)), rd with
+    | Some wr, Some rd =>
+      if negb (wloc_writable rd) then ok m RSkip else
+      match weak_clone wr m with
+      | None => (m, raise m)
+      | Some m =>
+        let old := read_wloc rd m in
+        ok (weak_drop_opt old (write_wloc rd (Some wr) m)) ROk
+      end
+    | _, _ => ok m RSkip
+    end.
+
+  Definition cmd_w_drop (self : option id) (w : wloc) (m : machine) : machine * outcome :=
+    if negb (k_weak K) then ok m RSkip else
+    let '(m, rw) := wresolve self w m in
+    match rw with
+    | Some rw =>
+      if negb (wloc_writable rw) then ok m RSkip else
+      match read_wloc rw m with
+      | Some wr => ok (weak_drop wr (write_wloc rw None m)) ROk
+      | None => ok m RSkip
+      end
+    | None => ok m RSkip
+    end
+  
+  (* Cc::try_unwrap (cc.rs:76) *).
+
+  Definition cmd_try_unwrap (self : option id) (l : loc) (v : nat) (m : machine) : machine * outcome :=
+    let '(m, r) := resolve self l m in
+    match r, values m !! v with
+    | Some r, Some None =>
+      match read_loc r m with
+      | None => ok m RSkip
+      | Some o =>
+        let h := hdr_of m o in
+        if negb (h_rc h =? 1) then ok m RUnwrapErr
+        else if st_collecting m || st_dropping m || (k_fin K && st_finalizing m)
+        then ok m RUnwrapErr
+        else
+          let m := write_loc r None m in
+          let m := remove_from_list o m in
+          let m := upd o (fun x => x <| o_vst := VMoved |>) m in
+          let m := m <| values ::= <[v := Some o]> |> in
+          let m := drop_metadata o m in
+          let m := dealloc o m in
+          ok m RUnwrapOk
+      end
+    | _, _ => ok m RSkip
+    end
+  
+  (* dropping a value that was moved out by try_unwrap *).
+
+  Definition cmd_drop_value (self : option id) (v : nat) (m : machine) : machine * outcome :=
+    match mjoin (values m !! v) with
+    | None => ok m RSkip
+    | Some o =>
+      let m := m <| values ::= <[v := None]> |> in
+      let '(m, r) := rec (KDropValue o) m in
+      match r with ONormal => ok m ROk | _ => (m, r) end
+    end
+  
+  (* Cc::finalize_again (cc.rs:142) *).
+
+  Definition cmd_fin_again (self : option id) (l : loc) (m : machine) : machine * outcome :=
+    if negb (k_fin K) then ok m RSkip else
+    let '(m, r) := resolve self l m in
+    match (r ≫= (fun r => read_loc r m)) with
+    | None => ok m RSkip
+    | Some o =>
+      if st_collecting m || st_finalizing m || st_dropping m then (m, raise m)
+      else ok (uhdr o (set_fin false) m) ROk
+    end
+  
+  (* Cc::new_cyclic (weak/mod.rs:242) *).
+
+  Definition cmd_new_cyclic (self : option id) (dst : loc) (cls script : nat) (selfweak : bool) (m : machine) : machine * outcome :=
+    if negb (k_weak K) then ok m RSkip else
+    let '(m, r) := resolve self dst m in
+    match r with
+    | None => ok m RSkip
+    | Some r =>
+      let '(m, o) := new_node cls m in
+      let m := upd o (fun x => x <| o_vst := VUninit |>) m in
+      let '(m, t) := if k_auto K then rec KTrigger m else (m, ONormal) in
+      match t with
+      | ONormal =>
+        let m := box_alloc o m in
+        let m := init_side o m in
+        let m := uside o (fun k => default k (inc_wk k)) m in
+        let m := dec_rc_m o m in
+        let m := m <| wparam ::= cons (WTo o) |> in
+        let m := emit (ECb KClosure o (cur_flags m)) m in
+        let '(m, boom) := tick KClosure m in
+        let '(m, r') := if boom then (m, raise m) else rec (KScript None (script_of script)) m in
+        match r' with
+        | ONormal =>
+          (* the closure built the value; the class's first weak field may hold a clone
+             of the parameter *)
+          let '(m, r'') :=
+            if selfweak && bool_decide (0 < c_nw (class_of cls))%nat then
+              match weak_clone (WTo o) m with
+              | Some m => (upd o (fun x => x <| o_wfields ::= <[0%nat := Some (WTo o)]> |>) m, ONormal)
+              | None => (m, raise m)
+              end
+            else (m, ONormal) in
+          match r'' with
+          | ONormal =>
+            let m := upd o (fun x => x <| o_vst := VLive |>) m in
+            let m := uhdr o (fun h => default h (inc_rc h)) m in
+            let m := m <| wparam ::= tail |> in
+            let m := weak_drop (WTo o) m in
+            let '(m, r3) := rec (KStore r o) m in
+            match r3 with ONormal => ok m ROk | _ => (m, r3) end
+          | _ =>
+            let m := dealloc o (drop_metadata o m) in
+            let m := m <| wparam ::= tail |> in
+            (weak_drop (WTo o) m, r'')
+          end
+        | OPanic | OAbort =>
+          (* PanicGuard: drop_metadata + cc_dealloc, no value drop; then the parameter *)
+          let m := dealloc o (drop_metadata o m) in
+          let m := m <| wparam ::= tail |> in
+          (weak_drop (WTo o) m, r')
+        | OFuel => (m, OFuel)
+        end
+      | _ => (m, t)      (* the wrapper is only built after the collection returned *)
+      end
+    end
+  
+  (* Cleaner::register (cleaners/mod.rs:86) *).
+
+  Definition cmd_register (self : option id) (nd : nodeloc) (script c : nat) (m : machine) : machine * outcome :=
+    if negb (k_clean K) then ok m RSkip else
+    let '(m, no) := nresolve self nd m in
+    match no, cslots m !! c with
+    | Some o, Some _ =>
+      match get m o with
+      | Some x =>
+        if negb (c_cleaner (class_of (o_cls x))) || o_ismap x then ok m RSkip
+        else
+          let '(m, mo, r) :=
+            match o_cleaner x with
+            | Some mo => (m, mo, ONormal)
+            | None =>
+              let '(m, mo) := new_map m in
+              let '(m, t) := if k_auto K then rec KTrigger m else (m, ONormal) in
+              match t with
+              | ONormal =>
+                let m := box_alloc mo m in
+                (upd o (fun x => x <| o_cleaner := Some mo |>) m, mo, ONormal)
+              | OPanic =>
+                let '(m, r) := unwinding (rec (KDropValue mo)) m in (m, mo, r)
+              | _ => (m, mo, t)
+              end
+            end in
+          match r with
+          | ONormal =>
+            match get m mo with
+            | Some mx =>
+              if o_mborrowed mx then (m, raise m)     (* RefCell::borrow_mut panics *)
+              else
+                let aid := next_aid m in
+                let m := m <| next_aid := S aid |> in
+                let '(m, slot) := map_insert mo aid script m in
+                (* cc.downgrade() *)
+                let m := init_side mo m in
+                match (side_wk m mo ≫= inc_wk) with
+                | None => (m, raise m)
+                | Some k =>
+                  let m := remove_from_list mo (uside mo (fun _ => k) m) in
+                  let old := mjoin (cslots m !! c) in
+                  let m := m <| cslots ::= <[c := Some (Cref mo slot aid)]> |> in
+                  let m := match old with Some cr => weak_drop (WTo (cr_map cr)) m | None => m end in
+                  ok m ROk
+                end
+            | None => (emit_bad BadState mo m, ONormal)
+            end
+          | _ => (m, r)
+          end
+      | None => ok m RSkip
+      end
+    | _, _ => ok m RSkip
+    end
+  
+  (* Cleanable::clean (cleaners/mod.rs:140) *).
+
+  Definition cmd_clean (self : option id) (c : nat) (m : machine) : machine * outcome :=
+    if negb (k_clean K) then ok m RSkip else
+    match mjoin (cslots m !! c) with
+    | None => ok m RSkip
+    | Some cr =>
+      let mo := cr_map cr in
+      let '(m, sc) := weak_strong_count (WTo mo) m in
+      if sc =? 0 then ok m ROk
+      else
+        match inc_rc (hdr_of m mo) with
+        | None => (m, raise m)
+        | Some h =>
+          let m := remove_from_list mo (uhdr mo (fun _ => h) m) in
+          match get m mo with
+          | None => (emit_bad BadState mo m, ONormal)
+          | Some mx =>
+            if o_mborrowed mx then
+              let '(m, r) := rec (KDropCc mo) m in
+              match r with ONormal => ok m ROk | _ => (m, r) end
+            else
+              let m := upd mo (fun x => x <| o_mborrowed := true |>) m in
+              let '(m, r) :=
+                match o_mslots mx !! cr_slot cr with
+                | Some (MAction aid script) =>
+                  if decide (aid = cr_aid cr) then
+                    (* SlotMap::remove: vacate the slot, push it on the free list, drop the value *)
+                    let m := upd mo (fun x => x <| o_mslots ::= <[cr_slot cr := MVacant]> |>
+                                                <| o_mfree ::= cons (cr_slot cr) |>) m in
+                    rec (KCleanRun mo aid script) m
+                  else (m, ONormal)
+                | _ => (m, ONormal)
+                end in
+              let m := upd mo (fun x => x <| o_mborrowed := false |>) m in
+              match r with
+              | ONormal =>
+                let '(m, r) := rec (KDropCc mo) m in
+                match r with ONormal => ok m ROk | _ => (m, r) end
+              | OPanic => unwinding (rec (KDropCc mo)) m
+              | _ => (m, r)
+              end
+          end
+        end
+    end.
+
+  Definition cmd_c_drop (self : option id) (c : nat) (m : machine) : machine * outcome :=
+    if negb (k_clean K) then ok m RSkip else
+    match mjoin (cslots m !! c) with
+    | None => ok m RSkip
+    | Some cr => ok (weak_drop (WTo (cr_map cr)) (m <| cslots ::= <[c := None]> |>)) ROk
+    end.
+
+  Definition cmd_bag (self : option id) (l : loc) (k : N) (m : machine) : machine * outcome :=
+    let '(m, r) := resolve self l m in
+    match (r ≫= (fun r => read_loc r m)) with
+    | None => ok m RSkip
+    | Some o =>
+      (* k clones pushed on the bag; stops with a panic at the limit *)
+      let fix go (k : nat) (m : machine) : machine * outcome :=
+          match k with
+          | O => ok m ROk
+          | S k' =>
+            match inc_rc (hdr_of m o) with
+            | None => (m, raise m)
+            | Some h => go k' (remove_from_list o (uhdr o (fun _ => h) m) <| bag ::= cons o |>)
+            end
+          end in
+      go (N.to_nat k) m
+    end.
+
+  Definition cmd_unbag (self : option id) (k : N) (m : machine) : machine * outcome :=
+    let '(m, r) := rec (KUnbag (N.to_nat k)) m in
+    match r with ONormal => ok m ROk | _ => (m, r) end.
+
+  Definition cmd_borrow (self : option id) (nd : nodeloc) (m : machine) : machine * outcome :=
+    let '(m, no) := nresolve self nd m in
+    match no with
+    | Some o => ok (upd o (fun x => x <| o_borrowed := true |>) m) ROk
+    | None => ok m RSkip
+    end.
+
+  Definition cmd_unborrow (self : option id) (nd : nodeloc) (m : machine) : machine * outcome :=
+    let '(m, no) := nresolve self nd m in
+    match no with
+    | Some o => ok (upd o (fun x => x <| o_borrowed := false |>) m) ROk
+    | None => ok m RSkip
+    end.
+
+  Definition cmd_cfg_auto (self : option id) (b : bool) (m : machine) : machine * outcome :=
+    if k_auto K then ok (m <| cf_auto := b |>) ROk else ok m RSkip.
+
+  Definition cmd_cfg_percent (self : option id) (num e : N) (m : machine) : machine * outcome :=
+    if k_auto K then
+      (* set_adjustment_percent asserts 0 <= p <= 1 *)
+      if N.shiftl 1 e <? num then (m, raise m)
+      else ok (m <| cf_pnum := num |> <| cf_pexp := e |>) ROk
+    else ok m RSkip.
+
+  Definition cmd_cfg_buffered (self : option id) (b : N) (m : machine) : machine * outcome :=
+    if k_auto K then ok (m <| cf_buf := b |>) ROk else ok m RSkip.
+
+  Definition cmd_arm (self : option id) (k : cbkind) (v : N) (m : machine) : machine * outcome :=
+    ok (set_fuse k v m) ROk.
+
+  Definition cmd_panic (self : option id)  (m : machine) : machine * outcome :=
+    (m, raise m).
+
+  Definition cmd_obs (self : option id) (l : loc) (m : machine) : machine * outcome :=
+    let '(m, r) := resolve self l m in
+    match (r ≫= (fun r => read_loc r m)) with
+    | None => ok m RSkip
+    | Some o =>
+      match get m o with
+      | Some x =>
+        let m := match o_box x with BAlloc => m | _ => emit_bad UseAfterFree o m end in
+        let wc := if h_side (o_hdr x) then match o_side x with Some s => w_cnt (sd_wk s) | None => 0 end else 0 in
+        let alive := match o_vst x with VLive => true | _ => false end in
+        let m := if alive then m else emit_bad UseAfterDrop o m in
+        ok (emit (EObs o (h_rc (o_hdr x)) wc (h_fin (o_hdr x)) alive) m) ROk
+      | None => ok (emit_bad BadState o m) ROk
+      end
+    end.
+
+  Definition cmd_w_obs (self : option id) (w : wloc) (m : machine) : machine * outcome :=
+    if negb (k_weak K) then ok m RSkip else
+    let '(m, rw) := wresolve self w m in
+    match (rw ≫= (fun rw => read_wloc rw m)) with
+    | None => ok m RSkip
+    | Some wr =>
+      let '(m, sc) := weak_strong_count wr m in
+      let '(m, wc) := weak_weak_count wr m in
+      ok (emit (EWObs sc wc) m) ROk
+    end.
+
+  Definition cmd_s_obs (self : option id)  (m : machine) : machine * outcome :=
+    ok (emit (ESObs (st_alloc m) (if pc_alive m then Some (pc_size m) else None) (st_exec m)
+                    (fl_t (cur_flags m))) m) ROk.
+
+  Definition step_cmd (self : option id) (c : cmd) (m : machine) : machine * outcome :=
+    match c with
+    | CNew dst cls => cmd_new self dst cls m
+    | CClone src dst => cmd_clone self src dst m
+    | CDrop l => cmd_drop self l m
+    | CMove src dst => cmd_move self src dst m
+    | CMarkAlive l => cmd_mark_alive self l m
+    | CCollect => cmd_collect self m
+    | CDowngrade l w => cmd_downgrade self l w m
+    | CUpgrade w dst => cmd_upgrade self w dst m
+    | CWNew w => cmd_w_new self w m
+    | CWClone src dst => cmd_w_clone self src dst m
+    | CWDrop w => cmd_w_drop self w m
+    | CTryUnwrap l v => cmd_try_unwrap self l v m
+    | CDropValue v => cmd_drop_value self v m
+    | CFinAgain l => cmd_fin_again self l m
+    | CNewCyclic dst cls script selfweak => cmd_new_cyclic self dst cls script selfweak m
+    | CRegister nd script c => cmd_register self nd script c m
+    | CClean c => cmd_clean self c m
+    | CCDrop c => cmd_c_drop self c m
+    | CBag l k => cmd_bag self l k m
+    | CUnbag k => cmd_unbag self k m
+    | CBorrow nd => cmd_borrow self nd m
+    | CUnborrow nd => cmd_unborrow self nd m
+    | CCfgAuto b => cmd_cfg_auto self b m
+    | CCfgPercent num e => cmd_cfg_percent self num e m
+    | CCfgBuffered b => cmd_cfg_buffered self b m
+    | CArm k v => cmd_arm self k v m
+    | CPanic => cmd_panic self m
+    | CObs l => cmd_obs self l m
+    | CWObs w => cmd_w_obs self w m
+    | CSObs => cmd_s_obs self m
+    end.
+
+  Definition step (c : call) (m : machine) : machine * outcome :=
+    match c with
+    | KCmd self c => step_cmd self c m
+    | KScript self cs => step_script self cs m
+    | KStore r v => step_store r v m
+    | KDropCc o => step_drop_cc o m
+    | KDropValue o => step_drop_value o m
+    | KDropFields o j => step_drop_fields o j m
+    | KDropMapSlots o j => step_drop_map_slots o j m
+    | KCleanRun mo aid script => step_clean_run mo aid script m
+    | KTrigger => step_trigger m
+    | KCollectCycles => step_collect_cycles m
+    | KCollect => step_collect m
+    | KCollectLoop k => step_collect_loop k m
+    | KCollectOnce => step_collect_once m
+    | KFinalizeList L rest any old_f => step_finalize_list L rest any old_f m
+    | KDropList L rest old_d => step_drop_list L rest old_d m
+    | KUnbag k => step_unbag k m
+    end.
+
+  End Step.
+
   Fixpoint run (fuel : nat) (c : call) (m : machine) {struct fuel} : machine * outcome :=
     match fuel with
     | O => (m, OFuel)
-    | S n =>
-      match c with
-      (* ---------- scripts ---------- *)
-      | KScript self cs =>
-        match cs with
-        | [] => (m, ONormal)
-        | c :: cs' =>
-          let '(m, r) := run n (KCmd self c) m in
-          match r with ONormal => run n (KScript self cs') m | _ => (m, r) end
-        end
-
-      (* ---------- [*loc = Some(v)]: the old content is dropped after the store ---------- *)
-      | KStore r v =>
-        let old := read_loc r m in
-        let m := write_loc r (Some v) m in
-        match old with
-        | Some t => run n (KDropCc t) m
-        | None => (m, ONormal)
-        end
-
-      (* ---------- Cc::drop (cc.rs:248-333) ---------- *)
-      | KDropCc o =>
-        match get m o with
-        | None => (emit_bad BadState o m, ONormal)
-        | Some x =>
-          let m := match o_box x with BAlloc => m | _ => emit_bad UseAfterFree o m end in
-          let h := o_hdr x in
-          if is_in_list_or_queue h then (dec_rc_m o m, ONormal)
-          else if h_rc h =? 1 then
-            let fin_step (m : machine) : machine * outcome * bool (* continue to the drop? *) :=
-              if k_fin K && needs_fin h then
-                let old_f := st_finalizing m in
-                let m := m <| st_finalizing := true |> in
-                let m := uhdr o (set_fin true) m in
-                let '(m, r) :=
-                  if o_ismap x then (m, ONormal)    (* Finalize for CleanerMap is empty *)
-                  else
-                    let m := emit (ECb KFin o (cur_flags m)) m in
-                    let '(m, boom) := tick KFin m in
-                    if boom then (m, raise m)
-                    else run n (KScript (Some o) (oscript (c_fin (class_of (o_cls x))))) m in
-                match r with
-                | ONormal =>
-                  if h_rc (hdr_of m o) =? 1 then (m <| st_finalizing := old_f |>, ONormal, true)
-                  else (* resurrected: handle_possible_cycle, then the guard *)
-                    (add_to_list o (dec_rc_m o m) <| st_finalizing := old_f |>, ONormal, false)
-                | _ => (m <| st_finalizing := old_f |>, r, false)
-                end
-              else (m, ONormal, true) in
-            let '(m, r, go) := fin_step m in
-            if negb go then (m, r)
-            else
-              let m := dec_rc_m o m in
-              let m := remove_from_list o m in
-              let old_d := st_dropping m in
-              let m := m <| st_dropping := true |> in
-              let m := if k_weak K then uhdr o set_dropped m else m in
-              let '(m, r) := run n (KDropValue o) m in
-              match r with
-              | ONormal =>
-                let m := drop_metadata o m in
-                let m := dealloc o m in
-                (m <| st_dropping := old_d |>, ONormal)
-              | _ => (m <| st_dropping := old_d |>, r)
-              end
-          else (add_to_list o (dec_rc_m o m), ONormal)
-        end
-
-      (* ---------- drop_in_place of the value: Drop::drop, then the fields ---------- *)
-      | KDropValue o =>
-        match get m o with
-        | None => (emit_bad BadState o m, ONormal)
-        | Some x =>
-          match o_vst x with
-          | VUninit => (emit_bad UninitDrop o m, ONormal)
-          | VLive | VMoved =>
-            let m := upd o (fun x => x <| o_vst := VDropping |>) m in
-            if o_ismap x then
-              (* CleanerMap has no Drop impl; its SlotMap drops the occupied slots in order *)
-              let '(m, r) := run n (KDropMapSlots o 0) m in
-              (upd o (fun x => x <| o_vst := VDropped |>) m, r)
-            else
-              let m := emit (ECb KDrop o (cur_flags m)) m in
-              let '(m, boom) := tick KDrop m in
-              let '(m, r) := if boom then (m, raise m)
-                             else run n (KScript (Some o) (oscript (c_drop (class_of (o_cls x))))) m in
-              let '(m, r) :=
-                match r with
-                | ONormal => run n (KDropFields o 0) m
-                | OPanic => unwinding (run n (KDropFields o 0)) m
-                | _ => (m, r)
-                end in
-              (upd o (fun x => x <| o_vst := VDropped |>) m, r)
-          | _ => (emit_bad DoubleDrop o m, ONormal)
-          end
-        end
-
-      (* ---------- drop glue: strong fields, weak fields, the Cleaner ---------- *)
-      | KDropFields o j =>
-        match get m o with
-        | None => (emit_bad BadState o m, ONormal)
-        | Some x =>
-          if decide (j < length (o_fields x))%nat then
-            let f := mjoin (o_fields x !! j) in
-            let m := upd o (fun x => x <| o_fields ::= <[j := None]> |>) m in
-            let '(m, r) := match f with Some t => run n (KDropCc t) m | None => (m, ONormal) end in
-            match r with
-            | ONormal => run n (KDropFields o (S j)) m
-            | OPanic => unwinding (run n (KDropFields o (S j))) m
-            | _ => (m, r)
-            end
-          else
-            let m := fold_left (fun m w => weak_drop_opt w m) (o_wfields x) m in
-            let m := upd o (fun x => x <| o_wfields ::= fmap (fun _ => None) |>) m in
-            match o_cleaner x with
-            | Some t => run n (KDropCc t) (upd o (fun x => x <| o_cleaner := None |>) m)
-            | None => (m, ONormal)
-            end
-        end
-
-      (* ---------- SlotMap drop: every pending action runs, in slot order ---------- *)
-      | KDropMapSlots o j =>
-        match get m o with
-        | None => (emit_bad BadState o m, ONormal)
-        | Some x =>
-          match o_mslots x !! j with
-          | None => (m, ONormal)
-          | Some sl =>
-            let m := upd o (fun x => x <| o_mslots ::= <[j := MVacant]> |>) m in
-            let '(m, r) :=
-              match sl with
-              | MAction aid script => run n (KCleanRun o aid script) m
-              | MVacant => (m, ONormal)
-              end in
-            match r with
-            | ONormal => run n (KDropMapSlots o (S j)) m
-            | OPanic => unwinding (run n (KDropMapSlots o (S j))) m
-            | _ => (m, r)
-            end
-          end
-        end
-
-      (* ---------- CleaningAction::drop: take the closure and call it ---------- *)
-      | KCleanRun mo aid script =>
-        let m := emit (ECb KAction aid (cur_flags m)) m in
-        let '(m, boom) := tick KAction m in
-        if boom then (m, raise m) else run n (KScript None (script_of script)) m
-
-      (* ---------- trigger_collection (lib.rs:209) ---------- *)
-      | KTrigger =>
-        if st_collecting m then (m, ONormal)
-        else if negb (pc_alive m) then (m, ONormal)
-        else if should_collect m then
-          let '(m, r) := run n KCollect m in
-          match r with ONormal => (adjust_trigger_point m, ONormal) | _ => (m, r) end
-        else (m, ONormal)
-
-      (* ---------- collect_cycles (lib.rs:194) ---------- *)
-      | KCollectCycles =>
-        if st_collecting m then (m, ONormal)
-        else
-          let '(m, r) := if pc_alive m then run n KCollect m else (m, ONormal) in
-          match r with ONormal => (adjust_trigger_point m, ONormal) | _ => (m, r) end
-
-      (* ---------- collect (lib.rs:230) ---------- *)
-      | KCollect =>
-        let m := m <| st_collecting := true |> <| st_exec ::= N.succ |> in
-        let '(m, r) := run n (KCollectLoop (if k_fin K then 10 else 1)%nat) m in
-        (m <| st_collecting := false |>, r)
-
-      | KCollectLoop k =>
-        match k with
-        | O => (m, ONormal)
-        | S k' =>
-          match pc m with
-          | [] => (m, ONormal)
-          | _ =>
-            let '(m, r) := run n KCollectOnce m in
-            match r with ONormal => run n (KCollectLoop k') m | _ => (m, r) end
-          end
-        end
-
-      (* ---------- __collect (lib.rs:280) ---------- *)
-      | KCollectOnce =>
-        (* the tracing phases run with finalizing/dropping cleared; the two guards restore the
-           caller's values afterwards, also when tracing unwinds (lib.rs, __collect) *)
-        let old_f := st_finalizing m in
-        let old_d := st_dropping m in
-        let '(m, pr) := trace_pass (m <| st_finalizing := false |> <| st_dropping := false |>) in
-        let m := m <| st_finalizing := old_f |> <| st_dropping := old_d |> in
-        match pr with
-        | PFuel => (emit_bad Fuel 0 m, OFuel)
-        | PPanicked => (m, raise m)
-        | PDone L =>
-          match L with
-          | [] => (m, ONormal)
-          | _ =>
-            if k_fin K then
-              let old_f := st_finalizing m in
-              run n (KFinalizeList L L false old_f) (m <| st_finalizing := true |>)
-            else
-              let old_d := st_dropping m in
-              run n (KDropList L L old_d) (m <| st_dropping := true |>)
-          end
-        end
-
-      (* ---------- the finalization pass (lib.rs:302-341) ---------- *)
-      | KFinalizeList L rest any old_f =>
-        match rest with
-        | g :: rest' =>
-          let h := hdr_of m g in
-          if needs_fin h then
-            (* CcBox::finalize_inner, cc.rs:566 *)
-            let m := uhdr g (set_fin true) m in
-            let '(m, r) :=
-              if is_map m g then (m, ONormal)
-              else
-                let m := emit (ECb KFin g (cur_flags m)) m in
-                let '(m, boom) := tick KFin m in
-                if boom then (m, raise m)
-                else match get m g with
-                     | Some x => run n (KScript (Some g) (oscript (c_fin (class_of (o_cls x))))) m
-                     | None => (m, ONormal)
-                     end in
-            match r with
-            | ONormal => run n (KFinalizeList L rest' true old_f) m
-            | _ =>
-              (* unwinding: the guard, then non_root_list's Drop *)
-              (unmark_all L (m <| st_finalizing := old_f |>), r)
-            end
-          else run n (KFinalizeList L rest' any old_f) m
-        | [] =>
-          let m := m <| st_finalizing := old_f |> in
-          if negb any then
-            let old_d := st_dropping m in
-            run n (KDropList L L old_d) (m <| st_dropping := true |>)
-          else
-            (* swap_list + mark_self_and_append (lists.rs:306-336) *)
-            let m := fold_left (fun m g => uhdr g (fun h => set_mark PC (reset_tc h)) m) L m in
-            (m <| pc ::= fun old => L ++ old |> <| pc_size ::= fun s => N.of_nat (length L) + s |>, ONormal)
-        end
-
-      (* ---------- deallocate_list (lib.rs:351) ---------- *)
-      | KDropList L rest old_d =>
-        match rest with
-        | g :: rest' =>
-          (* CcBox::drop_inner, cc.rs:584 *)
-          let m := if is_in_list (hdr_of m g) then m else emit_bad AssertFail g m in
-          let m := if k_weak K then uhdr g set_dropped m else m in
-          let '(m, r) := run n (KDropValue g) m in
-          match r with
-          | ONormal => run n (KDropList L rest' old_d) m
-          | _ =>
-            (* ToDropList::drop: unlink + un-mark (+ set dropped with weak-ptrs) every member *)
-            let m := fold_left (fun m g => uhdr g (fun h => let h := set_mark NM h in
-                                                          if k_weak K then set_dropped h else h) m) L m in
-            (m <| st_dropping := old_d |>, r)
-          end
-        | [] =>
-          let m := fold_left (fun m g => dealloc g (drop_metadata g m)) L m in
-          (m <| st_dropping := old_d |>, ONormal)
-        end
-
-      | KUnbag k =>
-        match k with
-        | O => (m, ONormal)
-        | S k' =>
-          match bag m with
-          | [] => (m, ONormal)
-          | o :: b =>
-            let '(m, r) := run n (KDropCc o) (m <| bag := b |>) in
-            match r with ONormal => run n (KUnbag k') m | _ => (m, r) end
-          end
-        end
-
-      (* ---------- commands ---------- *)
-      | KCmd self c =>
-        match c with
-        (* Cc::new (cc.rs:52) *)
-        | CNew dst cls =>
-          let '(m, r) := resolve self dst m in
-          match r with
-          | None => ok m RSkip
-          | Some r =>
-            let '(m, o) := new_node cls m in
-            let '(m, t) := if k_auto K then run n KTrigger m else (m, ONormal) in
-            match t with
-            | ONormal =>
-              let m := box_alloc o m in
-              let '(m, r') := run n (KStore r o) m in
-              match r' with ONormal => ok m ROk | _ => (m, r') end
-            | OPanic => unwinding (run n (KDropValue o)) m    (* the by-value argument *)
-            | _ => (m, t)
-            end
-          end
-
-        (* Clone for Cc (cc.rs:199) *)
-        | CClone src dst =>
-          let '(m, rs) := resolve self src m in
-          let '(m, rd) := resolve self dst m in
-          match rs, rd with
-          | Some rs, Some rd =>
-            match read_loc rs m with
-            | None => ok m RSkip
-            | Some o =>
-              match inc_rc (hdr_of m o) with
-              | None => (m, raise m)
-              | Some h =>
-                let m := remove_from_list o (uhdr o (fun _ => h) m) in
-                let '(m, r') := run n (KStore rd o) m in
-                match r' with ONormal => ok m ROk | _ => (m, r') end
-              end
-            end
-          | _, _ => ok m RSkip
-          end
-
-        | CDrop l =>
-          let '(m, r) := resolve self l m in
-          match r with
-          | None => ok m RSkip
-          | Some r =>
-            match read_loc r m with
-            | None => ok m RSkip
-            | Some o =>
-              let '(m, r') := run n (KDropCc o) (write_loc r None m) in
-              match r' with ONormal => ok m ROk | _ => (m, r') end
-            end
-          end
-
-        | CMove src dst =>
-          let '(m, rs) := resolve self src m in
-          let '(m, rd) := resolve self dst m in
-          match rs, rd with
-          | Some rs, Some rd =>
-            match read_loc rs m with
-            | None => ok m RSkip
-            | Some o =>
-              let '(m, r') := run n (KStore rd o) (write_loc rs None m) in
-              match r' with ONormal => ok m ROk | _ => (m, r') end
-            end
-          | _, _ => ok m RSkip
-          end
-
-        (* Cc::mark_alive (cc.rs:168) *)
-        | CMarkAlive l =>
-          let '(m, r) := resolve self l m in
-          match (r ≫= (fun r => read_loc r m)) with
-          | None => ok m RSkip
-          | Some o => ok (remove_from_list o m) ROk
-          end
-
-        | CCollect =>
-          let '(m, r) := run n KCollectCycles m in
-          match r with ONormal => ok m ROk | _ => (m, r) end
-
-        (* Cc::downgrade (weak/mod.rs:346) *)
-        | CDowngrade l w =>
-          if negb (k_weak K) then ok m RSkip else
-          let '(m, r) := resolve self l m in
-          let '(m, rw) := wresolve self w m in
-          match (r ≫= (fun r => read_loc r m)), rw with
-          | Some o, Some rw =>
-            if negb (wloc_writable rw) then ok m RSkip else
-            let m := init_side o m in
-            match (side_wk m o ≫= inc_wk) with
-            | None => (m, raise m)
-            | Some k =>
-              let m := remove_from_list o (uside o (fun _ => k) m) in
-              let old := read_wloc rw m in
-              let m := write_wloc rw (Some (WTo o)) m in
-              ok (weak_drop_opt old m) ROk
-            end
-          | _, _ => ok m RSkip
-          end
-
-        (* Weak::upgrade (weak/mod.rs:66) *)
-        | CUpgrade w dst =>
-          if negb (k_weak K) then ok m RSkip else
-          let '(m, rw) := wresolve self w m in
-          let '(m, rd) := resolve self dst m in
-          match (rw ≫= (fun rw => read_wloc rw m)), rd with
-          | Some wr, Some rd =>
-            let '(m, sc) := weak_strong_count wr m in
-            if sc =? 0 then ok m RNone
-            else match wr with
-                 | WNull => ok m RNone
-                 | WTo o =>
-                   match inc_rc (hdr_of m o) with
-                   | None => (m, raise m)
-                   | Some h =>
-                     let m := remove_from_list o (uhdr o (fun _ => h) m) in
-                     let '(m, r') := run n (KStore rd o) m in
-                     match r' with ONormal => ok m (RSome o) | _ => (m, r') end
-                   end
-                 end
-          | _, _ => ok m RSkip
-          end
-
-        | CWNew w =>
-          if negb (k_weak K) then ok m RSkip else
-          let '(m, rw) := wresolve self w m in
-          match rw with
-          | Some rw =>
-            if negb (wloc_writable rw) then ok m RSkip else
-            let old := read_wloc rw m in
-            ok (weak_drop_opt old (write_wloc rw (Some WNull) m)) ROk
-          | None => ok m RSkip
-          end
-
-        | CWClone src dst =>
-          if negb (k_weak K) then ok m RSkip else
-          let '(m, rs) := wresolve self src m in
-          let '(m, rd) := wresolve self dst m in
-          match (rs ≫= (fun rs => read_wloc rs m)), rd with
-          | Some wr, Some rd =>
-            if negb (wloc_writable rd) then ok m RSkip else
-            match weak_clone wr m with
-            | None => (m, raise m)
-            | Some m =>
-              let old := read_wloc rd m in
-              ok (weak_drop_opt old (write_wloc rd (Some wr) m)) ROk
-            end
-          | _, _ => ok m RSkip
-          end
-
-        | CWDrop w =>
-          if negb (k_weak K) then ok m RSkip else
-          let '(m, rw) := wresolve self w m in
-          match rw with
-          | Some rw =>
-            if negb (wloc_writable rw) then ok m RSkip else
-            match read_wloc rw m with
-            | Some wr => ok (weak_drop wr (write_wloc rw None m)) ROk
-            | None => ok m RSkip
-            end
-          | None => ok m RSkip
-          end
-
-        (* Cc::try_unwrap (cc.rs:76) *)
-        | CTryUnwrap l v =>
-          let '(m, r) := resolve self l m in
-          match r, values m !! v with
-          | Some r, Some None =>
-            match read_loc r m with
-            | None => ok m RSkip
-            | Some o =>
-              let h := hdr_of m o in
-              if negb (h_rc h =? 1) then ok m RUnwrapErr
-              else if st_collecting m || st_dropping m || (k_fin K && st_finalizing m)
-              then ok m RUnwrapErr
-              else
-                let m := write_loc r None m in
-                let m := remove_from_list o m in
-                let m := upd o (fun x => x <| o_vst := VMoved |>) m in
-                let m := m <| values ::= <[v := Some o]> |> in
-                let m := drop_metadata o m in
-                let m := dealloc o m in
-                ok m RUnwrapOk
-            end
-          | _, _ => ok m RSkip
-          end
-
-        (* dropping a value that was moved out by try_unwrap *)
-        | CDropValue v =>
-          match mjoin (values m !! v) with
-          | None => ok m RSkip
-          | Some o =>
-            let m := m <| values ::= <[v := None]> |> in
-            let '(m, r) := run n (KDropValue o) m in
-            match r with ONormal => ok m ROk | _ => (m, r) end
-          end
-
-        (* Cc::finalize_again (cc.rs:142) *)
-        | CFinAgain l =>
-          if negb (k_fin K) then ok m RSkip else
-          let '(m, r) := resolve self l m in
-          match (r ≫= (fun r => read_loc r m)) with
-          | None => ok m RSkip
-          | Some o =>
-            if st_collecting m || st_finalizing m || st_dropping m then (m, raise m)
-            else ok (uhdr o (set_fin false) m) ROk
-          end
-
-        (* Cc::new_cyclic (weak/mod.rs:242) *)
-        | CNewCyclic dst cls script selfweak =>
-          if negb (k_weak K) then ok m RSkip else
-          let '(m, r) := resolve self dst m in
-          match r with
-          | None => ok m RSkip
-          | Some r =>
-            let '(m, o) := new_node cls m in
-            let m := upd o (fun x => x <| o_vst := VUninit |>) m in
-            let '(m, t) := if k_auto K then run n KTrigger m else (m, ONormal) in
-            match t with
-            | ONormal =>
-              let m := box_alloc o m in
-              let m := init_side o m in
-              let m := uside o (fun k => default k (inc_wk k)) m in
-              let m := dec_rc_m o m in
-              let m := m <| wparam ::= cons (WTo o) |> in
-              let m := emit (ECb KClosure o (cur_flags m)) m in
-              let '(m, boom) := tick KClosure m in
-              let '(m, r') := if boom then (m, raise m) else run n (KScript None (script_of script)) m in
-              match r' with
-              | ONormal =>
-                (* the closure built the value; the class's first weak field may hold a clone
-                   of the parameter *)
-                let '(m, r'') :=
-                  if selfweak && bool_decide (0 < c_nw (class_of cls))%nat then
-                    match weak_clone (WTo o) m with
-                    | Some m => (upd o (fun x => x <| o_wfields ::= <[0%nat := Some (WTo o)]> |>) m, ONormal)
-                    | None => (m, raise m)
-                    end
-                  else (m, ONormal) in
-                match r'' with
-                | ONormal =>
-                  let m := upd o (fun x => x <| o_vst := VLive |>) m in
-                  let m := uhdr o (fun h => default h (inc_rc h)) m in
-                  let m := m <| wparam ::= tail |> in
-                  let m := weak_drop (WTo o) m in
-                  let '(m, r3) := run n (KStore r o) m in
-                  match r3 with ONormal => ok m ROk | _ => (m, r3) end
-                | _ =>
-                  let m := dealloc o (drop_metadata o m) in
-                  let m := m <| wparam ::= tail |> in
-                  (weak_drop (WTo o) m, r'')
-                end
-              | OPanic | OAbort =>
-                (* PanicGuard: drop_metadata + cc_dealloc, no value drop; then the parameter *)
-                let m := dealloc o (drop_metadata o m) in
-                let m := m <| wparam ::= tail |> in
-                (weak_drop (WTo o) m, r')
-              | OFuel => (m, OFuel)
-              end
-            | _ => (m, t)      (* the wrapper is only built after the collection returned *)
-            end
-          end
-
-        (* Cleaner::register (cleaners/mod.rs:86) *)
-        | CRegister nd script c =>
-          if negb (k_clean K) then ok m RSkip else
-          let '(m, no) := nresolve self nd m in
-          match no, cslots m !! c with
-          | Some o, Some _ =>
-            match get m o with
-            | Some x =>
-              if negb (c_cleaner (class_of (o_cls x))) || o_ismap x then ok m RSkip
-              else
-                let '(m, mo, r) :=
-                  match o_cleaner x with
-                  | Some mo => (m, mo, ONormal)
-                  | None =>
-                    let '(m, mo) := new_map m in
-                    let '(m, t) := if k_auto K then run n KTrigger m else (m, ONormal) in
-                    match t with
-                    | ONormal =>
-                      let m := box_alloc mo m in
-                      (upd o (fun x => x <| o_cleaner := Some mo |>) m, mo, ONormal)
-                    | OPanic =>
-                      let '(m, r) := unwinding (run n (KDropValue mo)) m in (m, mo, r)
-                    | _ => (m, mo, t)
-                    end
-                  end in
-                match r with
-                | ONormal =>
-                  match get m mo with
-                  | Some mx =>
-                    if o_mborrowed mx then (m, raise m)     (* RefCell::borrow_mut panics *)
-                    else
-                      let aid := next_aid m in
-                      let m := m <| next_aid := S aid |> in
-                      let '(m, slot) := map_insert mo aid script m in
-                      (* cc.downgrade() *)
-                      let m := init_side mo m in
-                      match (side_wk m mo ≫= inc_wk) with
-                      | None => (m, raise m)
-                      | Some k =>
-                        let m := remove_from_list mo (uside mo (fun _ => k) m) in
-                        let old := mjoin (cslots m !! c) in
-                        let m := m <| cslots ::= <[c := Some (Cref mo slot aid)]> |> in
-                        let m := match old with Some cr => weak_drop (WTo (cr_map cr)) m | None => m end in
-                        ok m ROk
-                      end
-                  | None => (emit_bad BadState mo m, ONormal)
-                  end
-                | _ => (m, r)
-                end
-            | None => ok m RSkip
-            end
-          | _, _ => ok m RSkip
-          end
-
-        (* Cleanable::clean (cleaners/mod.rs:140) *)
-        | CClean c =>
-          if negb (k_clean K) then ok m RSkip else
-          match mjoin (cslots m !! c) with
-          | None => ok m RSkip
-          | Some cr =>
-            let mo := cr_map cr in
-            let '(m, sc) := weak_strong_count (WTo mo) m in
-            if sc =? 0 then ok m ROk
-            else
-              match inc_rc (hdr_of m mo) with
-              | None => (m, raise m)
-              | Some h =>
-                let m := remove_from_list mo (uhdr mo (fun _ => h) m) in
-                match get m mo with
-                | None => (emit_bad BadState mo m, ONormal)
-                | Some mx =>
-                  if o_mborrowed mx then
-                    let '(m, r) := run n (KDropCc mo) m in
-                    match r with ONormal => ok m ROk | _ => (m, r) end
-                  else
-                    let m := upd mo (fun x => x <| o_mborrowed := true |>) m in
-                    let '(m, r) :=
-                      match o_mslots mx !! cr_slot cr with
-                      | Some (MAction aid script) =>
-                        if decide (aid = cr_aid cr) then
-                          (* SlotMap::remove: vacate the slot, push it on the free list, drop the value *)
-                          let m := upd mo (fun x => x <| o_mslots ::= <[cr_slot cr := MVacant]> |>
-                                                      <| o_mfree ::= cons (cr_slot cr) |>) m in
-                          run n (KCleanRun mo aid script) m
-                        else (m, ONormal)
-                      | _ => (m, ONormal)
-                      end in
-                    let m := upd mo (fun x => x <| o_mborrowed := false |>) m in
-                    match r with
-                    | ONormal =>
-                      let '(m, r) := run n (KDropCc mo) m in
-                      match r with ONormal => ok m ROk | _ => (m, r) end
-                    | OPanic => unwinding (run n (KDropCc mo)) m
-                    | _ => (m, r)
-                    end
-                end
-              end
-          end
-
-        | CCDrop c =>
-          if negb (k_clean K) then ok m RSkip else
-          match mjoin (cslots m !! c) with
-          | None => ok m RSkip
-          | Some cr => ok (weak_drop (WTo (cr_map cr)) (m <| cslots ::= <[c := None]> |>)) ROk
-          end
-
-        | CBag l k =>
-          let '(m, r) := resolve self l m in
-          match (r ≫= (fun r => read_loc r m)) with
-          | None => ok m RSkip
-          | Some o =>
-            (* k clones pushed on the bag; stops with a panic at the limit *)
-            let fix go (k : nat) (m : machine) : machine * outcome :=
-                match k with
-                | O => ok m ROk
-                | S k' =>
-                  match inc_rc (hdr_of m o) with
-                  | None => (m, raise m)
-                  | Some h => go k' (remove_from_list o (uhdr o (fun _ => h) m) <| bag ::= cons o |>)
-                  end
-                end in
-            go (N.to_nat k) m
-          end
-
-        | CUnbag k =>
-          let '(m, r) := run n (KUnbag (N.to_nat k)) m in
-          match r with ONormal => ok m ROk | _ => (m, r) end
-
-        | CBorrow nd =>
-          let '(m, no) := nresolve self nd m in
-          match no with
-          | Some o => ok (upd o (fun x => x <| o_borrowed := true |>) m) ROk
-          | None => ok m RSkip
-          end
-        | CUnborrow nd =>
-          let '(m, no) := nresolve self nd m in
-          match no with
-          | Some o => ok (upd o (fun x => x <| o_borrowed := false |>) m) ROk
-          | None => ok m RSkip
-          end
-
-        | CCfgAuto b => if k_auto K then ok (m <| cf_auto := b |>) ROk else ok m RSkip
-        | CCfgPercent num e =>
-          if k_auto K then
-            (* set_adjustment_percent asserts 0 <= p <= 1 *)
-            if N.shiftl 1 e <? num then (m, raise m)
-            else ok (m <| cf_pnum := num |> <| cf_pexp := e |>) ROk
-          else ok m RSkip
-        | CCfgBuffered b => if k_auto K then ok (m <| cf_buf := b |>) ROk else ok m RSkip
-        | CArm k v => ok (set_fuse k v m) ROk
-        | CPanic => (m, raise m)
-
-        | CObs l =>
-          let '(m, r) := resolve self l m in
-          match (r ≫= (fun r => read_loc r m)) with
-          | None => ok m RSkip
-          | Some o =>
-            match get m o with
-            | Some x =>
-              let m := match o_box x with BAlloc => m | _ => emit_bad UseAfterFree o m end in
-              let wc := if h_side (o_hdr x) then match o_side x with Some s => w_cnt (sd_wk s) | None => 0 end else 0 in
-              let alive := match o_vst x with VLive => true | _ => false end in
-              let m := if alive then m else emit_bad UseAfterDrop o m in
-              ok (emit (EObs o (h_rc (o_hdr x)) wc (h_fin (o_hdr x)) alive) m) ROk
-            | None => ok (emit_bad BadState o m) ROk
-            end
-          end
-
-        | CWObs w =>
-          if negb (k_weak K) then ok m RSkip else
-          let '(m, rw) := wresolve self w m in
-          match (rw ≫= (fun rw => read_wloc rw m)) with
-          | None => ok m RSkip
-          | Some wr =>
-            let '(m, sc) := weak_strong_count wr m in
-            let '(m, wc) := weak_weak_count wr m in
-            ok (emit (EWObs sc wc) m) ROk
-          end
-
-        | CSObs =>
-          ok (emit (ESObs (st_alloc m) (if pc_alive m then Some (pc_size m) else None) (st_exec m)
-                          (fl_t (cur_flags m))) m) ROk
-        end
-      end
+    | S n => step (run n) c m
     end.
 
   (** A top-level command runs under catch_unwind. *)
